@@ -146,6 +146,7 @@ func checkC34(p *Prog, r *Result, tier string) {
 	r.Explanation = "R1 a variable declared in an enclosing function and WRITTEN inside a closure that runs in its own goroutine (go statement, worker-pool Invoke, SentryGo; nested synchronous closures and deferred closures of it included) is reported when that closure is spawned in a loop outside of which the variable lives — several instances then write the same variable — unless the write lies in a mutex region or goes to a slice element; " +
 		"R3 a variable of the spawning function that the goroutine writes is not used by the spawning function after the spawn unless a channel receive, a Wait or a lock lies in between (the goroutine and its spawner otherwise access it concurrently); " +
 		"R4 a map field that an engine implementation writes into through its options parameter is assigned a fresh map (make, literal, nil) wherever calcium builds those options, never a map of the shared request; " +
+		"R5 no goroutine started in a loop captures that loop's iteration variables (go.mod language version < 1.22); " +
 		"R2 a field of the receiver of a service type whose methods run concurrently (gRPC server, cluster, store, resource manager, discovery, watcher) is written outside constructors only inside a mutex region or through atomic/sync types. " +
 		"Both are necessary conditions of race freedom for the shapes they describe. This is a lint for four shapes: silence is not race freedom (no pointer analysis is available: heap objects reached through pointers, maps shared through fields and reads racing with writes are out of reach)."
 	r.NotCovered = "races through the heap (shared pointers, maps and slices reached via fields), read/write races where the write is synchronised but the read is not, races inside third-party code"
@@ -422,6 +423,25 @@ func checkC34(p *Prog, r *Result, tier string) {
 		}
 	}
 	r.Analysed["spawned_closures"] = nSpawn
+
+	// ---- R5: a goroutine started inside a loop does not capture the loop's variables (language version < 1.22: the loop
+	// writes the one shared variable while the goroutine reads it — a data race, and the goroutine sees a later element)
+	{
+		var names []string
+		seenTop := map[*FuncNode]bool{}
+		for _, K := range funcs {
+			if K.Lit == nil || g.roles[K].kind != "async" {
+				continue
+			}
+			if t := topOf(K); !seenTop[t] {
+				seenTop[t] = true
+				names = append(names, t.Name)
+			}
+		}
+		sort.Strings(names)
+		r.min("R5", 10)
+		checkLoopVarCapture(p, r, "R5", names)
+	}
 
 	// ---- R4: a map field that an engine implementation writes into through its options parameter is a FRESH map wherever
 	// the options are built — aliasing it to a map of the (shared) request would make every goroutine that deploys one
